@@ -4,12 +4,12 @@ CONSTANTS
   Mode = "mc"
   Faithful = {"F8"}
   Tabs <- MCTabs
-  MaxVal = 4
+  MaxVal = 3
   MaxRho = 3
   MaxIter = 2
   MaxK = 2
   MaxF = 1
-  CfgSpace <- ObserverCfgs
+  CfgSpace <- QDeadlineCfgs
 CONSTRAINT Bound
 CHECK_DEADLOCK FALSE
 INVARIANT TypeOK
